@@ -34,6 +34,9 @@ M = [
   "    pub fn delete(&mut self, (col, row): VisualPosition, mut n: usize, pen: &Pen) {\n        n = n.min(self.cols);"),
  ("c01-param-digit-overflow", "C01", "src/parser.rs",
   "*number = (10 * (*number as u32) + (input as u32)) as u16;", "*number = 10 * *number + (input as u16);"),
+ ("c01-contract-splits-off-row-by-row", "C01", "src/line.rs",
+  "        let mut rows: Vec<Line> = self.cells[len..]\n            .chunks(len)\n            .map(|cells| Line {\n                cells: cells.to_vec(),\n                wrapped: true,\n            })\n            .collect();",
+  "        let mut rows: Vec<Line> = Vec::new();\n        let mut rest = self.cells.split_off(len);\n        while !rest.is_empty() {\n            let tail = rest.split_off(len.min(rest.len()));\n            rows.push(Line { cells: rest, wrapped: true });\n            rest = tail;\n        }"),
  # ---- C02
  ("c02-last-line-keeps-wrap-after-truncate", "C02", "src/buffer.rs",
   "                    self.lines.truncate(line_count - excess);\n                    self.lines.last_mut().unwrap().wrapped = false;",
